@@ -130,7 +130,7 @@ func HtmlEscape(dst []byte, src []byte) []byte {
 
 	/* grow dst if it is shorter */
 	if cap(dst)-len(dst) < len(src)+types.BufPaddingSize {
-		cap := len(src)*3/2 + types.BufPaddingSize
+		cap := len(dst) + len(src)*3/2 + types.BufPaddingSize
 		*dbuf = rt.GrowSlice(typeByte, *dbuf, cap)
 	}
 
